@@ -199,6 +199,69 @@ pub fn run(name: &str) -> Option<bool> {
             );
             matches!(out, Outcome::Completion(t) if !t.contains("remove"))
         }
+        // C15: zsh output echoed the typed word unquoted when there was nothing to suggest
+        "zsh_unquoted_typed_word" => {
+            let o = OptSpec::plain(Spec::Seq(vec![item(1, both('a', "alpha"), Leaf::Switch)]));
+            let p = build_options(&o);
+            let (out, _, _) = run_full(
+                &p,
+                &bytes(&["-a", "$(canary) x"]),
+                &RunOpts {
+                    comp: Some(7),
+                    name: Some("app".into()),
+                    ..RunOpts::default()
+                },
+            );
+            matches!(out, Outcome::Completion(t) if t.contains("compadd -- $(canary)"))
+        }
+        // C15: bash `_filedir` directive was not terminated by a newline
+        "bash_filedir_newline" => {
+            let f = Spec::wrap(W::Shell(ShellKind::File, String::new()), 3, pos(2, Ty::Str));
+            let o = OptSpec::plain(Spec::Seq(vec![item(1, both('a', "alpha"), Leaf::Switch), f]));
+            let p = build_options(&o);
+            let (out, _, _) = run_full(
+                &p,
+                &bytes(&[""]),
+                &RunOpts {
+                    comp: Some(8),
+                    name: Some("app".into()),
+                    ..RunOpts::default()
+                },
+            );
+            matches!(out, Outcome::Completion(t) if t.contains("_filedirCOMPREPLY"))
+        }
+        // C15: zsh dropped the `_files` request when exactly one candidate existed
+        "zsh_single_candidate_drops_files" => {
+            let f = Spec::wrap(W::Shell(ShellKind::File, String::new()), 3, pos(2, Ty::Str));
+            let o = OptSpec::plain(Spec::Seq(vec![item(1, both('a', "alpha"), Leaf::Switch), f]));
+            let p = build_options(&o);
+            let (out, _, _) = run_full(
+                &p,
+                &bytes(&[""]),
+                &RunOpts {
+                    comp: Some(7),
+                    name: Some("app".into()),
+                    ..RunOpts::default()
+                },
+            );
+            matches!(out, Outcome::Completion(t) if t.contains("compadd") && !t.contains("_files"))
+        }
+        // C15: fish protocol is one candidate per line, a typed word with a newline that is
+        // echoed back (nothing to suggest) becomes two lines
+        "fish_newline_in_typed_word" => {
+            let o = OptSpec::plain(Spec::Seq(vec![item(1, both('a', "alpha"), Leaf::Switch)]));
+            let p = build_options(&o);
+            let (out, _, _) = run_full(
+                &p,
+                &bytes(&["-a", "x\ny"]),
+                &RunOpts {
+                    comp: Some(9),
+                    name: Some("app".into()),
+                    ..RunOpts::default()
+                },
+            );
+            matches!(out, Outcome::Completion(t) if t == "x\ny\n")
+        }
         _ => return None,
     })
 }
